@@ -87,6 +87,17 @@ pub fn run_c10(r: &mut Report) {
             r.case("parses-back", json!({"value": v}), "identical value", format!("{:?}", back), matches!(&back, Ok(x) if *x == v));
         }
     }
+    // strings whose TEXT looks like JSON (documents with blanks, numbers, literals, escapes) stay strings, character for character
+    for t in ["[1, 2]", "{ \"a\" : 1 }", "[1,2]", "{\"b\":1,\"a\":2}", " [1]", "[1] ", "1.0", "1e3", "-0", "null", "true", "\"quoted\"", "\\u0041", "[\n1\n]", "{}", "[]", "{ }", "[ ]"] {
+        for v in [json!(t), json!([t]), json!({"k": t}), json!({t: 1})] {
+            let got = canon(&v);
+            let back: Option<Value> = got.as_ref().ok().and_then(|b| serde_json::from_slice(b).ok());
+            let mut want = vec![];
+            let ref_ok = reference(&v, &mut want).is_ok();
+            r.case("strings-that-look-like-json", json!({"value": v}), "reference bytes; parses back to the identical value", format!("{:?}", got.as_ref().map(|b| String::from_utf8_lossy(b).to_string())),
+                   ref_ok && got.as_ref().ok() == Some(&want) && back.as_ref() == Some(&v));
+        }
+    }
     // values nested deeper than any parser limit (built in memory): the encoding is either the reference bytes or an error, never a
     // truncated success
     for depth in [100usize, 127, 128, 129, 130, 200, 1000] {
